@@ -1,1 +1,346 @@
-/-! Property theorems for C08 (stub: not built yet). -/
+import UsualProofs.C08.Match
+import UsualProofs.C08.Check
+import UsualProofs.C08.Old
+/-!
+# C08 — TLS server-name verification accepts only names the certificate really covers
+
+Property theorems about the model `Usual.C08` (`lean/Usual/C08/TlsName.lean`, a statement by
+statement transcription of `usual/tls/tls_verify.c` after repairs F17/F18) against the spec
+`Usual.C08.Covers` (`lean/Usual/C08/Spec.lean`, the wording of the property).
+
+All theorems hold for every classifier `ipLit` of IP literals (= whichever `inet_pton` is
+linked); the examples use the model of the platform's one, `Usual.C08.ipLit true`.
+Byte strings in the examples are written out: `*`=42 `.`=46 `a`=97 `b`=98 `c`=99 `A`=65 `1`=49 …
+-/
+namespace UsualProps.C08
+open Usual.C08 UsualProofs.C08
+
+/-! ## tls_match_name -/
+
+/-- A match is either equality up to ASCII case, or a wildcard `*.` + two non-empty labels (+ more)
+    whose suffix equals the requested name minus its first (non-empty, dot-free) label. -/
+theorem match_sound (cert name : Str) (h : matchName cert name = true) : NameCovers cert name :=
+  matchName_sound cert name h
+
+-- "*.a.b" matches "c.A.b" (wildcard, not equality)
+example : matchName [42,46,97,46,98] [99,46,65,46,98] = true ∧
+    eqi [42,46,97,46,98] [99,46,65,46,98] = false := by decide
+
+/-- Every name covered by the rules is accepted. -/
+theorem match_complete (cert name : Str) (h : NameCovers cert name) : matchName cert name = true :=
+  matchName_complete cert name h
+
+-- the hypotheses are satisfiable by a genuine wildcard: "*.a.b" covers "c.a.b"
+example : NameCovers [42,46,97,46,98] [99,46,97,46,98] :=
+  Or.inr ⟨⟨[97], [98], [], by decide, ⟨by decide, by decide⟩, ⟨by decide, by decide⟩, Or.inl rfl⟩,
+    [99], [46,97,46,98], by decide, ⟨by decide, by decide⟩, by decide, by decide⟩
+
+/-- The wildcard never spans more than one label: if what stands in front of the matched
+    suffix contains a dot, there is no match.  (`*.a.b` does not match `x.y.a.b`.) -/
+theorem wildcard_one_label (cd pre dom : Str) (heq : eqi cd dom = true) (hpre : DOT ∈ pre) :
+    matchName (STAR :: cd) (pre ++ dom) = false := by
+  cases hm : matchName (STAR :: cd) (pre ++ dom) with
+  | false => rfl
+  | true =>
+    exfalso
+    have hlen := eqi_length heq
+    rcases matchName_sound _ _ hm with he | ⟨_, lbl, dom', hn, hlbl, _, he⟩
+    · have hl := eqi_length he
+      simp only [List.length_cons, List.length_append] at hl
+      have h1 : pre.length = 1 := by omega
+      match pre, h1, hpre with
+      | [x], _, hx =>
+        have hx : x = DOT := by simpa using hx.symm
+        subst hx
+        have := (eqi_iff _ _).1 he
+        simp only [List.cons_append, List.nil_append, List.map_cons, List.cons.injEq] at this
+        exact star_ne_dot_lower this.1
+    · simp only [List.tail_cons] at he
+      have hl := eqi_length he
+      have := List.append_inj' hn (by omega)
+      rw [this.1] at hpre
+      exact hlbl.2 hpre
+
+-- "*.a.b" vs "c.c.a.b": pre = "c.c" contains a dot
+example : matchName (STAR :: [46,97,46,98]) ([99,46,99] ++ [46,97,46,98]) = false :=
+  wildcard_one_label [46,97,46,98] [99,46,99] [46,97,46,98] (by decide) (by decide)
+
+/-- The wildcard never stands for part of a label: unless the certificate name begins with the
+    complete label `*` (i.e. with `*.`), only equality up to case can match.
+    (`*foo.bar`, `f*.bar`, `foo.*.bar` are plain strings.) -/
+theorem wildcard_not_partial (cert name : Str) (h : ∀ r, cert ≠ STAR :: DOT :: r) :
+    matchName cert name = eqi cert name := by
+  cases he : eqi cert name with
+  | true => unfold matchName; simp [he]
+  | false =>
+    cases hm : matchName cert name with
+    | false => rfl
+    | true =>
+      exfalso
+      rcases matchName_sound _ _ hm with h1 | ⟨⟨l1, l2, rest, hc, _⟩, _⟩
+      · rw [he] at h1; cases h1
+      · exact h (l1 ++ [DOT] ++ l2 ++ rest) (by rw [hc]; simp)
+
+-- "*a.a.b" does not match "ca.a.b", "c*.a.b" does not match "cc.a.b"
+example : matchName [42,97,46,97,46,98] [99,97,46,97,46,98] = false ∧
+    matchName [99,42,46,97,46,98] [99,99,46,97,46,98] = false := by decide
+
+/-! ## tls_check_name -/
+
+/-- IP literals: the only ways to be accepted are an identical iPAddress entry or a
+    byte-identical Common Name — no wildcard, no case folding, no dNSName. -/
+theorem no_wildcard_for_ip (ipLit : Str → Option Str) (cert : Cert) (name addr : Str)
+    (hip : ipLit name = some addr) :
+    checkName ipLit cert name = .ok ↔
+      (SanEntry.ip addr ∈ cert.sans ∨ (cert.cns.head? = some name ∧ NUL ∉ name)) := by
+  unfold checkName
+  rw [hip, scanSAN_ip]
+  by_cases hm : SanEntry.ip addr ∈ cert.sans
+  · simp [hm]
+  · simp only [hm, ↓reduceIte, false_or]
+    exact checkCN_ip addr name cert.cns
+
+-- requested "1.2.3.4": CN "*.2.3.4" and dNSName "1.2.3.4" do not help, iPAddress 01020304 does
+example : checkName (ipLit true) ⟨[.dns [49,46,50,46,51,46,52]], [[42,46,50,46,51,46,52]]⟩
+      [49,46,50,46,51,46,52] = .noMatch ∧
+    checkName (ipLit true) ⟨[.ip [1,2,3,4]], []⟩ [49,46,50,46,51,46,52] = .ok := by decide
+
+/-- SOUNDNESS: acceptance implies that the certificate covers the name by the rules. -/
+theorem sound (ipLit : Str → Option Str) (cert : Cert) (name : Str)
+    (h : checkName ipLit cert name = .ok) : Covers ipLit cert name := by
+  unfold Covers
+  cases hip : ipLit name with
+  | some addr => exact (no_wildcard_for_ip ipLit cert name addr hip).1 h
+  | none =>
+    simp only
+    unfold checkName at h
+    rw [hip] at h
+    cases hs : scanSAN none name cert.sans with
+    | ok =>
+      obtain ⟨d, m, h1, h2, h3⟩ := scanSAN_dns_ok name cert.sans hs
+      exact Or.inl ⟨d, m, h1, h2, matchName_sound _ _ h3⟩
+    | noMatch =>
+      rw [hs] at h
+      obtain ⟨cn, c1, c2, c3⟩ := (checkCN_dns name cert.cns).1 h
+      exact Or.inr ⟨cn, c1, c2, matchName_sound _ _ c3⟩
+    | errNulSan => rw [hs] at h; cases h
+    | errSpace => rw [hs] at h; cases h
+    | errNulCN => rw [hs] at h; cases h
+
+-- a certificate that is accepted through its second dNSName, a wildcard
+example : checkName (ipLit true) ⟨[.dns [98], .dns [42,46,97,46,98]], [[99]]⟩ [99,46,65,46,98] = .ok := by
+  decide
+
+/-- COMPLETENESS: every name the certificate covers is accepted, provided no malicious
+    dNSName is in the certificate (a malicious entry reached first turns the answer into an
+    error — see `malicious_san_is_error`; `complete_first_hit` is the sharper form). -/
+theorem complete (ipLit : Str → Option Str) (cert : Cert) (name : Str)
+    (hc : Covers ipLit cert name) (hclean : ipLit name = none → CleanSans cert.sans) :
+    checkName ipLit cert name = .ok := by
+  unfold Covers at hc
+  cases hip : ipLit name with
+  | some addr =>
+    rw [hip] at hc
+    exact (no_wildcard_for_ip ipLit cert name addr hip).2 hc
+  | none =>
+    rw [hip] at hc
+    simp only at hc
+    have hcl := hclean hip
+    unfold checkName
+    rw [hip]
+    rcases hc with ⟨d, m, h1, h2, h3⟩ | ⟨cn, c1, c2, c3⟩
+    · obtain ⟨pre, post, hsplit⟩ := List.append_of_mem m
+      have hpre : ∀ d', SanEntry.dns d' ∈ pre → ¬ MaliciousDns d' := fun d' hd' =>
+        hcl d' (by rw [hsplit]; simp [hd'])
+      have hhit := scanSAN_dns_hit_match name d post h1 h2 (matchName_complete _ _ h3)
+      rcases scanSAN_dns_clean_prefix name pre (.dns d :: post) hpre with r | r
+      · rw [hsplit, r]
+      · rw [hsplit, r, hhit]
+    · have hcn : checkCN none name cert.cns = .ok :=
+        (checkCN_dns name cert.cns).2 ⟨cn, c1, c2, matchName_complete _ _ c3⟩
+      rcases scanSAN_dns_clean name cert.sans hcl with r | r
+      · rw [r]
+      · rw [r]; exact hcn
+
+-- covered through the CN (wildcard) while the SAN has unrelated, clean entries
+example : Covers (ipLit true) ⟨[.dns [98], .ip [1,2,3,4]], [[42,46,97,46,98]]⟩ [99,46,97,46,98] ∧
+    (ipLit true [99,46,97,46,98] = none → CleanSans [.dns [98], .ip [1,2,3,4]]) := by
+  refine ⟨?_, fun _ d hd => ?_⟩
+  · have : ipLit true [99,46,97,46,98] = none := by decide
+    unfold Covers; rw [this]
+    exact Or.inr ⟨[42,46,97,46,98], rfl, by decide, matchName_sound _ _ (by decide)⟩
+  · have : d = [98] := by simpa using hd
+    subst this
+    intro h; rcases h with h | h
+    · exact absurd h (by decide)
+    · exact absurd h (by decide)
+
+/-- Sharper completeness for subjectAltName: a clean covering dNSName is accepted as soon as
+    no malicious dNSName stands *before* it (what comes after does not matter). -/
+theorem complete_first_hit (ipLit : Str → Option Str) (cert : Cert) (name d : Str)
+    (pre post : List SanEntry) (hip : ipLit name = none)
+    (hs : cert.sans = pre ++ .dns d :: post)
+    (hpre : ∀ d', SanEntry.dns d' ∈ pre → ¬ MaliciousDns d')
+    (hd : ¬ MaliciousDns d) (hcov : NameCovers d name) :
+    checkName ipLit cert name = .ok := by
+  have h1 : NUL ∉ d := fun e => hd (Or.inl e)
+  have h2 : d ≠ [SPACE] := fun e => hd (Or.inr e)
+  have hhit := scanSAN_dns_hit_match name d post h1 h2 (matchName_complete _ _ hcov)
+  unfold checkName
+  rw [hip, hs]
+  rcases scanSAN_dns_clean_prefix name pre (.dns d :: post) hpre with r | r
+  · rw [r]
+  · rw [r, hhit]
+
+-- [good, evil]: "a" then "a\0b" — accepted for "a"
+example : checkName (ipLit true) ⟨[.dns [97], .dns [97,0,98]], []⟩ [97] = .ok := by decide
+
+/-- A malicious dNSName (embedded NUL, or the single space) that the scan reaches — every
+    dNSName before it is clean and does not cover the name — makes the result the error -2
+    with the matching explanatory text; it is never a match and never "no match". -/
+theorem malicious_san_is_error (ipLit : Str → Option Str) (cert : Cert) (name d : Str)
+    (pre post : List SanEntry) (hip : ipLit name = none)
+    (hs : cert.sans = pre ++ .dns d :: post)
+    (hpre : ∀ d', SanEntry.dns d' ∈ pre → ¬ MaliciousDns d' ∧ ¬ NameCovers d' name)
+    (hd : MaliciousDns d) :
+    checkName ipLit cert name = (if NUL ∈ d then .errNulSan else .errSpace) ∧
+    (checkName ipLit cert name).rc = -2 ∧ (checkName ipLit cert name).errClass ≠ "none" := by
+  have hskip : ∀ e ∈ pre, Skipped name e := by
+    intro e he d' hd'
+    subst hd'
+    obtain ⟨a, b⟩ := hpre d' he
+    refine ⟨fun x => a (Or.inl x), fun x => a (Or.inr x), ?_⟩
+    cases hm : matchName d' name with
+    | false => rfl
+    | true => exact absurd (matchName_sound _ _ hm) b
+  have hscan : scanSAN none name cert.sans = (if NUL ∈ d then .errNulSan else .errSpace) := by
+    rw [hs, scanSAN_dns_prefix name pre _ hskip]
+    by_cases hn : NUL ∈ d
+    · rw [if_pos hn]; exact scanSAN_dns_hit_nul name d post hn
+    · rw [if_neg hn]
+      rcases hd with hd | hd
+      · exact absurd hd hn
+      · subst hd; exact scanSAN_dns_hit_space name post
+  have hres : checkName ipLit cert name = (if NUL ∈ d then .errNulSan else .errSpace) := by
+    unfold checkName
+    rw [hip, hscan]
+    by_cases hn : NUL ∈ d
+    · simp [hn]
+    · simp [hn]
+  refine ⟨hres, ?_, ?_⟩
+  · rw [hres]; by_cases hn : NUL ∈ d <;> simp [hn, Res.rc]
+  · rw [hres]; by_cases hn : NUL ∈ d <;> simp [hn, Res.errClass]
+
+-- [evil, good]: "a\0b" before "a" is an error for "a";  " " likewise
+example : checkName (ipLit true) ⟨[.dns [97,0,98], .dns [97]], []⟩ [97] = .errNulSan ∧
+    checkName (ipLit true) ⟨[.dns [98], .dns [32], .dns [97]], [[97]]⟩ [97] = .errSpace := by decide
+
+/-- A Common Name with an embedded NUL is reported as error -2 (with its text) whenever the
+    Common Name is consulted, i.e. the subjectAltName gave no answer — also for IP literals. -/
+theorem malicious_cn_is_error (ipLit : Str → Option Str) (cert : Cert) (name cn : Str)
+    (hcn : cert.cns.head? = some cn) (hnul : NUL ∈ cn)
+    (hdns : ipLit name = none →
+      ∀ d, SanEntry.dns d ∈ cert.sans → ¬ MaliciousDns d ∧ ¬ NameCovers d name)
+    (hipa : ∀ addr, ipLit name = some addr → SanEntry.ip addr ∉ cert.sans) :
+    checkName ipLit cert name = .errNulCN ∧ (checkName ipLit cert name).rc = -2 ∧
+    (checkName ipLit cert name).errClass ≠ "none" := by
+  have hcns : ∃ t, cert.cns = cn :: t := by
+    cases hc : cert.cns with
+    | nil => rw [hc] at hcn; cases hcn
+    | cons x t => rw [hc] at hcn; simp at hcn; exact ⟨t, by rw [hcn]⟩
+  obtain ⟨t, hcns⟩ := hcns
+  have hres : checkName ipLit cert name = .errNulCN := by
+    unfold checkName
+    cases hip : ipLit name with
+    | some addr =>
+      rw [scanSAN_ip, if_neg (hipa addr hip), hcns]
+      exact checkCN_nul _ name cn t hnul
+    | none =>
+      have hskip : ∀ e ∈ cert.sans, Skipped name e := by
+        intro e he d' hd'
+        subst hd'
+        obtain ⟨a, b⟩ := hdns hip d' he
+        refine ⟨fun x => a (Or.inl x), fun x => a (Or.inr x), ?_⟩
+        cases hm : matchName d' name with
+        | false => rfl
+        | true => exact absurd (matchName_sound _ _ hm) b
+      rw [(scanSAN_dns_noMatch name cert.sans).2 hskip, hcns]
+      exact checkCN_nul _ name cn t hnul
+  exact ⟨hres, by rw [hres]; rfl, by rw [hres]; decide⟩
+
+-- CN "a\0b", no SAN, requested "a"
+example : checkName (ipLit true) ⟨[], [[97,0,98]]⟩ [97] = .errNulCN := by decide
+
+/-- A certificate whose only names are malicious is never accepted. -/
+theorem malicious_never_ok (ipLit : Str → Option Str) (cert : Cert) (name : Str)
+    (hip : ipLit name = none)
+    (hsan : ∀ d, SanEntry.dns d ∈ cert.sans → MaliciousDns d)
+    (hcn : ∀ cn, cert.cns.head? = some cn → NUL ∈ cn) :
+    (checkName ipLit cert name).rc ≠ 0 := by
+  intro h0
+  have hok : checkName ipLit cert name = .ok := by
+    cases hr : checkName ipLit cert name <;> rw [hr] at h0 <;> first | rfl | (exact absurd h0 (by decide))
+  have hc := sound ipLit cert name hok
+  unfold Covers at hc
+  rw [hip] at hc
+  rcases hc with ⟨d, m, h1, h2, _⟩ | ⟨cn, c1, c2, _⟩
+  · rcases hsan d m with h | h
+    · exact h1 h
+    · exact h2 h
+  · exact c2 (hcn cn c1)
+
+example : (checkName (ipLit true) ⟨[.dns [97,0]], [[0,97]]⟩ [97]).rc = -2 := by decide
+
+/-- The result is -2 exactly when an explanatory `tls_error` text is left behind. -/
+theorem error_has_text (r : Res) : r.rc = -2 ↔ r.errClass ≠ "none" := by
+  cases r <;> simp [Res.rc, Res.errClass]
+
+example : (Res.errSpace).rc = -2 ∧ (Res.errSpace).errClass = "space" := by decide
+
+/-- `tls_peer_cert_contains_name` says yes only for covered names. -/
+theorem contains_sound (ipLit : Str → Option Str) (cert : Cert) (name : Str)
+    (h : containsName ipLit cert name = true) : Covers ipLit cert name := by
+  unfold containsName at h
+  exact sound ipLit cert name (by simpa using h)
+
+example : containsName (ipLit true) ⟨[.dns [42,46,97,46,98]], []⟩ [99,46,97,46,98] = true := by decide
+
+/-! ## the client handshake (tail of `tls_handshake_client`, verify_name on) -/
+
+/-- The handshake succeeds only for covered names; otherwise it fails with -1 — in
+    particular a malicious certificate name is a definite failure with its explanatory text,
+    never `TLS_WANT_POLLIN` (-2). -/
+theorem handshake_sound (ipLit : Str → Option Str) (cert : Cert) (name : Str) :
+    ((handshakeRc (checkName ipLit cert name)).1 = 0 → Covers ipLit cert name) ∧
+    ((handshakeRc (checkName ipLit cert name)).1 = 0 ∨ (handshakeRc (checkName ipLit cert name)).1 = -1) ∧
+    ((checkName ipLit cert name).rc = -2 →
+      handshakeRc (checkName ipLit cert name) = (-1, (checkName ipLit cert name).errClass) ∧
+      (checkName ipLit cert name).errClass ≠ "none") := by
+  refine ⟨fun h => ?_, ?_, fun h => ?_⟩
+  · apply sound
+    cases hr : checkName ipLit cert name <;> rw [hr] at h <;> first | rfl | (exact absurd h (by decide))
+  · cases checkName ipLit cert name <;> simp [handshakeRc]
+  · cases hr : checkName ipLit cert name <;> rw [hr] at h <;>
+      first | (exact absurd h (by decide)) | (exact ⟨rfl, by decide⟩)
+
+example : handshakeRc (checkName (ipLit true) ⟨[.dns [97,0,98]], []⟩ [97]) = (-1, "nul-san") := by decide
+
+/-! ## the unchanged code violates the property (defects F17, F18) -/
+
+/-- F17: before the repair, `*.a.` (one non-empty label after `*.`) matched `c.a.`, which the
+    rules do not cover.  Replayed on the real code by corpus/C08/f17-wildcard-trailing-dot.ops. -/
+theorem old_wildcard_counterexample :
+    ¬ (∀ cert name, matchNameOld cert name = true → NameCovers cert name) := by
+  intro h
+  have hc := h [42,46,97,46] [99,46,97,46] (by decide)
+  have : matchName [42,46,97,46] [99,46,97,46] = true := matchName_complete _ _ hc
+  exact absurd this (by decide)
+
+/-- F18: before the repair, a malicious certificate name made the handshake return -2, which
+    is `TLS_WANT_POLLIN`, not an error.  Replayed by corpus/C08/f18-handshake-malicious.ops. -/
+theorem old_handshake_counterexample :
+    ∃ cert name, (checkName (ipLit true) cert name).rc = -2 ∧
+      handshakeRcOld (checkName (ipLit true) cert name) = TLS_WANT_POLLIN :=
+  ⟨⟨[.dns [97,0,98]], []⟩, [97], by decide, by decide⟩
+
+end UsualProps.C08
